@@ -171,7 +171,7 @@ pub fn scenarios(tier: &str) -> Vec<Scenario> {
 
 pub fn run(tier: &str) -> ! {
 	let mut run = Run::new("C04", tier, "model_checking");
-	let budget = Budget::new(if tier == "thorough" { 3000.0 } else { 100.0 });
+	let budget = Budget::new(if tier == "thorough" { 1500.0 } else { 100.0 });
 	run.set("rule", json!("graph search over histories of commits, pipeline-stage events, reopen and iterator calls (open, seek(k), seek_to_first, seek_to_last, next, prev) on a btree column; every iterator answer is compared with the position semantics evaluated on a BTreeMap model at the time of the call; point reads and full forward/backward scans after every event; state identity additionally includes the iterator's internal state"));
 	run.assumptions = vec![
 		"iterator call sequences bounded by l calls with at most m commits/stage events while the iterator is open (per scenario)".into(),
